@@ -25,7 +25,7 @@ import (
 func init() {
 	Registry["C08"] = &Check{
 		Scenarios: c08Scenarios,
-		Rule: "The peer hangs up right behind a burst of three requests whose first handler requested CloseNotify (one segment, one segment per request, the first request alone and the other two in one segment). Run-time registrations at every instant of the dispatch of three messages (by name, by index, catch-all; the RWMutex shim gives a waiting writer precedence over new readers, as sync.RWMutex does). A handler of connection A blocked inside Parser.Load of a private dictionary (package dict is part of the instrumented build) while connection B receives. Two connections send requests no handler matches while nobody reads ErrorReports, then a handled one each. Two relay scenarios with a multistream (SCTP) connection B, forwarded to with Message.WriteTo and with the raw Conn.Write adaptor. Two relay scenarios: a handler of connection A blocks inside a Write to connection B (whose peer has stopped reading) while B keeps receiving - under a Server with and without ReadTimeout / WriteTimeout. In the blocked-handler mode (two of the six arrival patterns) an application goroutine polls ServeMux.ErrorReports() at every instant. Server.Serve on a scripted listener with two connections (both accepted, or one accepted and one attached with diam.NewConn); three requests per connection (re-auth, device-watchdog, capabilities-exchange, in that order) delivered as {one segment, one segment per message, split at the header/body border, first message in 10-byte pieces, first message one byte at a time}; instrumented handlers record enter/exit around a scheduling point and answer; variants: plain, and the first handler on connection A blocked for ever; in one arrival pattern the first handler of connection B requests CloseNotify (so the rest of B's messages pass through the reader switch); one arrival pattern runs on a zero Server{} (DefaultServeMux, default dictionary); every schedule up to preemption bound 3 (thorough 6). The environment is eager (all fragments queued before the server starts; a Read never crosses a fragment boundary), because the arrival instant of a fragment is unobservable to a per-connection single-threaded reader; what is explored is every interleaving of the accept loop, the per-connection readers and the handlers.",
+		Rule: "1101 connections on one ServeMux with the handlers of 1100 blocked for ever, and with 1100 closed by their peers before the last one is made (one schedule each). The peer hangs up right behind a burst of three requests whose first handler requested CloseNotify (one segment, one segment per request, the first request alone and the other two in one segment). Run-time registrations at every instant of the dispatch of three messages (by name, by index, catch-all; the RWMutex shim gives a waiting writer precedence over new readers, as sync.RWMutex does). A handler of connection A blocked inside Parser.Load of a private dictionary (package dict is part of the instrumented build) while connection B receives. Two connections send requests no handler matches while nobody reads ErrorReports, then a handled one each. Two relay scenarios with a multistream (SCTP) connection B, forwarded to with Message.WriteTo and with the raw Conn.Write adaptor. Two relay scenarios: a handler of connection A blocks inside a Write to connection B (whose peer has stopped reading) while B keeps receiving - under a Server with and without ReadTimeout / WriteTimeout. In the blocked-handler mode (two of the six arrival patterns) an application goroutine polls ServeMux.ErrorReports() at every instant. Server.Serve on a scripted listener with two connections (both accepted, or one accepted and one attached with diam.NewConn); three requests per connection (re-auth, device-watchdog, capabilities-exchange, in that order) delivered as {one segment, one segment per message, split at the header/body border, first message in 10-byte pieces, first message one byte at a time}; instrumented handlers record enter/exit around a scheduling point and answer; variants: plain, and the first handler on connection A blocked for ever; in one arrival pattern the first handler of connection B requests CloseNotify (so the rest of B's messages pass through the reader switch); one arrival pattern runs on a zero Server{} (DefaultServeMux, default dictionary); every schedule up to preemption bound 3 (thorough 6). The environment is eager (all fragments queued before the server starts; a Read never crosses a fragment boundary), because the arrival instant of a fragment is unobservable to a per-connection single-threaded reader; what is explored is every interleaving of the accept loop, the per-connection readers and the handlers.",
 		Assume: []string{"data-race freedom between visible operations (audited separately with -race)"},
 		QuickBudget: 120, ThoroughBudget: 2400,
 	}
@@ -439,6 +439,7 @@ func c08Scenarios(tier string) []*Scenario {
 	out = append(out, c08RelayBlocked(false, bound), c08RelayBlocked(true, bound))
 	out = append(out, c08RelayBlockedMulti(false, bound), c08RelayBlockedMulti(true, bound))
 	out = append(out, c08UnmatchedNoReader(bound))
+	out = append(out, &Scenario{Name: "many-connections", Seq: c08ManyConnections})
 	out = append(out, c08HandlerLoadsDictionary(bound))
 	out = append(out, c08RegisterWhileDispatching(bound))
 	return out
@@ -1307,6 +1308,96 @@ func c15ReporterPanics(fault string, bound int) *Scenario {
 // that is handled. Offering a report never holds a dispatcher up: both handled requests arrive.
 var c08un struct {
 	handled map[uint32]int
+}
+
+// c08ManyConnections: 1100 connections on one ServeMux (more than any fixed-size table of a
+// thousand entries). Mode "blocked": the handler of every connection but the last blocks for ever;
+// the last connection's request is still handled. Mode "closing": 1100 idle connections are closed
+// by their peers one after the other; every transport is closed and a connection made afterwards
+// is served. One deterministic schedule each (the dimension is the number of connections).
+func c08ManyConnections(r *SeqResult) {
+	const conns = 1100
+	saved := vs.DefaultMaxSteps
+	vs.DefaultMaxSteps = 5000000
+	defer func() { vs.DefaultMaxSteps = saved }()
+	for _, mode := range []string{"blocked", "closing"} {
+		mode := mode
+		handled := map[uint32]int{}
+		var all []*vnet.Conn
+		s := vs.Run(nil, false, 0, false, func() {
+			never := vs.NewChan[struct{}](0)
+			mux := diam.NewServeMux()
+			mux.HandleFunc("ALL", func(c diam.Conn, m *diam.Message) {
+				handled[m.Header.HopByHopID]++
+				if mode == "blocked" && m.Header.HopByHopID <= conns {
+					never.Recv()
+				}
+				m.Answer(2001).WriteTo(c)
+			})
+			req := func(i int) []byte {
+				return refcodec.EncodeMessage(refcodec.Header{Version: 1, Flags: 0x80, Code: 280, HbH: uint32(i), E2E: 1}, []refcodec.Node{ident(264, "c"), ident(296, "r")})
+			}
+			// all connections exist and wait for input (a pause on the virtual clock ends when nothing
+			// else can move: every reader is parked in Read) before anything arrives
+			for i := 1; i <= conns+1; i++ {
+				c := vnet.NewConn(fmt.Sprintf("K%d", i))
+				c.Pieces = 1
+				all = append(all, c)
+				if _, err := diam.NewConn(c, "peer", mux, dict.Default); err != nil {
+					panic(err)
+				}
+			}
+			vs.TimeSleep(time.Millisecond)
+			for i := 1; i <= conns; i++ {
+				if mode == "blocked" {
+					all[i-1].Deliver(req(i))
+				} else {
+					all[i-1].PeerEOF()
+				}
+			}
+			vs.TimeSleep(time.Millisecond)
+			all[conns].Deliver(req(conns + 1))
+			vs.TimeSleep(time.Millisecond)
+		})
+		capped := s.Capped
+		s.Teardown()
+		r.Cases++
+		r.Distinct++
+		if capped {
+			r.Capped++
+			continue
+		}
+		if r.Violation != "" {
+			continue
+		}
+		var v []string
+		if handled[conns+1] != 1 {
+			v = append(v, fmt.Sprintf("the request of connection %d was received but its handler did not run (handlers entered: %d)", conns+1, len(handled)))
+		}
+		if mode == "closing" {
+			open := 0
+			for _, c := range all[:conns] {
+				if !c.Closed {
+					open++
+				}
+			}
+			if open > 0 {
+				v = append(v, fmt.Sprintf("%d of %d transports whose peers hung up were never closed", open, conns))
+			}
+		} else if len(handled) != conns+1 {
+			v = append(v, fmt.Sprintf("%d of %d handlers were entered", len(handled), conns+1))
+		}
+		for _, p := range s.Panics() {
+			v = append(v, "panic: "+p)
+		}
+		if len(v) > 0 {
+			r.Violation = fmt.Sprintf("%d connections on one ServeMux, mode %q (blocked: every handler but the last blocks for ever; closing: the peers of the first %d hang up without sending): %s", conns+1, mode, conns, strings.Join(v, " | "))
+			r.Case = map[string]interface{}{"mode": mode, "conns": conns}
+		}
+	}
+	if r.Sample == "" {
+		r.Sample = "1101 connections, handlers of 1100 blocked / 1100 closed by their peers: the last one is served"
+	}
 }
 
 func c08UnmatchedNoReader(bound int) *Scenario {
